@@ -27,6 +27,11 @@ def main():
         meta = json.load(open(mp))
         harmless = '/harmless/' in d
         props = sorted(meta.get('checks', {}).keys()) if harmless else [meta['property']]
+        only = os.environ.get('VERIF_ONLY_PROPS')      # restrict a partial re-run to the properties whose checks changed
+        if only:
+            props = [p for p in props if p in only.split(',')]
+            if not props:
+                continue
         rc, o = sh('git -C %s apply %s' % (REPO, os.path.join(d, 'patch.diff')))
         if rc != 0:
             print(name, 'PATCH DOES NOT APPLY')
@@ -42,7 +47,7 @@ def main():
         finally:
             sh('git -C %s checkout -- .' % REPO)
         if harmless:
-            meta['checks'] = {p: {'rc': v['rc'], 'alarm': v['rc'] != 0, 'summary': v['summary'][:5]} for p, v in det.items()}
+            meta.setdefault('checks', {}).update({p: {'rc': v['rc'], 'alarm': v['rc'] != 0, 'summary': v['summary'][:5]} for p, v in det.items()})
         else:
             meta['detected'] = det
         json.dump(meta, open(mp, 'w'), indent=1)
